@@ -336,8 +336,16 @@ func runC20(c *Ctx) {
 						continue
 					}
 					// same function in both roles (e.g. Conn.Close from cmd and srvclose) with the same lockset: self-synchronised only if locked
+					// the command-loop side is identified by function, the other side by role only, so that
+					// moving code between helpers on the closing side does not create "new" pairs
 					ka := fmt.Sprintf("%s@%s[%s]", rw(a.write), funcName(a.fn), ra.name)
-					kb := fmt.Sprintf("%s@%s[%s]", rw(b.write), funcName(b.fn), rb.name)
+					kb := fmt.Sprintf("%s[%s]", rw(b.write), rb.name)
+					if ra.name != "cmd" {
+						ka = fmt.Sprintf("%s[%s]", rw(a.write), ra.name)
+						if rb.name == "cmd" {
+							kb = fmt.Sprintf("%s@%s[%s]", rw(b.write), funcName(b.fn), rb.name)
+						}
+					}
 					k := pairKey{a.owner + "." + a.fld.Name(), ka, kb}
 					if _, dup := pairs[k]; !dup {
 						pairs[k] = [2]access{a, b}
